@@ -40,11 +40,12 @@ MustClose(q, p, cfg) == q.conn = "close" \/ (q.ver = 10 /\ q.conn # "keep-alive"
 AnnouncesClose(e) == e.conn = "close" \/ (e.ver = 10 /\ e.conn # "keep-alive")
 MayCloseAnyway(rs, q, p) == (q.blen > 0 /\ p.read # "all") \/ rs.signalled \/ q.upgrade
 
-(* closeFed: how much had been fed when both the closing response had been written and the request it answers had been   *)
-(* sent completely.  A request that starts at or beyond that offset arrived in a later read than anything the connection *)
-(* still had to look at (the known deviation - requests already received are served after a closing response - does not  *)
-(* cover it).                                                                                                            *)
-ClosingReqFed(rs, i, fed) == i < 1 \/ i > NReq(rs) \/ fed >= rs.gt[i].end
+(* closeFed: how much had been fed at the first moment after a closing response at which the connection had nothing left *)
+(* to do: every dispatched request answered and every byte sent so far belonging to them.  A request that starts at or    *)
+(* beyond that offset arrived when the connection should already have been shut down; the known deviation (requests that  *)
+(* are already received or queued are still served after a closing response) does not cover it.                          *)
+QuietAfterClose(rs) == /\ rs.final /\ rs.called = rs.answered /\ rs.cur.k = 0 /\ rs.called >= 1 /\ rs.called <= NReq(rs)
+                       /\ rs.fed = rs.gt[rs.called].end
 ArrivedLater(rs, i) == rs.closeFed >= 0 /\ i >= 1 /\ i <= NReq(rs) /\ rs.gt[i].start >= rs.closeFed
 AfterFinalSig(rs, what, i) == "C03/" \o what \o "/after-final/" \o rs.finalWhy \o (IF ArrivedLater(rs, i) THEN "/arrived-later" ELSE "")
 (* ---------------------------------------------------------------------------------- *)
@@ -149,7 +150,7 @@ Closed(rs, cur, e) ==
                                       total |-> (IF cur.i >= 1 /\ cur.i <= NReq(rs) THEN rs.pf[cur.i].total ELSE 0), bodiless |-> cur.bodiless]]
   IN IF cur.closing THEN [s1 EXCEPT !.final = TRUE, !.tFinal = e.t, !.tAct = e.t, !.tAns = e.t,
                                     !.finalWhy = (IF cur.standalone THEN "error-response" ELSE "close-response"),
-                                    !.closeI = cur.i, !.closeFed = IF ClosingReqFed(rs, cur.i, rs.fed) THEN rs.fed ELSE -1]
+                                    !.closeI = cur.i]
      ELSE [s1 EXCEPT !.tAct = e.t, !.tAns = e.t]
 
 OnRespEnd(rs, e) ==
@@ -277,7 +278,7 @@ OnEnd(rs, e) ==
 
 RefStep0(rs, e) ==
   CASE e.ev = "Feed"     -> [rs EXCEPT !.fed = @ + e.n,
-                                       !.closeFed = IF rs.final /\ @ < 0 /\ ClosingReqFed(rs, rs.closeI, rs.fed + e.n) THEN rs.fed + e.n ELSE @, !.tLastIn = IF e.n > 0 THEN e.t ELSE @, !.tAct = e.t,
+                                       !.closeFed = IF @ < 0 /\ e.n > 0 /\ QuietAfterClose(rs) THEN rs.fed ELSE @, !.tLastIn = IF e.n > 0 THEN e.t ELSE @, !.tAct = e.t,
                                        !.tHead1 = IF NReq(rs) > 0 /\ @ < 0 /\ rs.fed + e.n >= rs.gt[1].headlen THEN e.t ELSE @]
     [] e.ev = "Eof"      -> [rs EXCEPT !.eofFed = TRUE, !.tAct = e.t, !.tEof = IF @ < 0 THEN e.t ELSE @]
     [] e.ev = "Rst"      -> [rs EXCEPT !.rstFed = TRUE]
